@@ -513,6 +513,12 @@ class ListCmpHooks:
                     return 'pad:' + x.v
                 return '?'
             return Sym('delegate', args=(tag(a), tag(b)))
+        if fn == 'len' and len(c.args) == 1 and norm(c.args[0]) not in (self.la, self.lb):
+            v = it.ev(c.args[0], env, facts)
+            if isinstance(v, Sym) and v.kind == 'chunk':
+                return Sym('chunklen', name=v.name, digit=v.digit)
+            if isinstance(v, Sym) and v.kind == 'strconst':
+                return Sym('chunklen', name='pad:' + v.v, digit=v.v.isdigit())
         if fn == 'len' and len(c.args) == 1 and norm(c.args[0]) in (self.la, self.lb):
             return Sym('int', aff=Aff.var('len' + ('A' if norm(c.args[0]) == self.la else 'B')))
         return NotImplemented
@@ -524,6 +530,14 @@ class ListCmpHooks:
             return NotImplemented
         if any(isinstance(v, Sym) and v.kind in ('chunk', 'strconst') for v in (l, r)) and isinstance(t.ops[0], (ast.Lt, ast.Gt, ast.LtE, ast.GtE)):
             self.cfg.setdefault('flags', []).append('chunks are ordered as strings in `%s` (lexicographic: "10" < "9")' % norm(t))
+            return [(True, facts), (False, facts)]
+        if any(isinstance(v, Sym) and v.kind == 'chunklen' for v in (l, r)):
+            if all(isinstance(v, Sym) and getattr(v, 'digit', False) for v in (l, r)):
+                self.cfg.setdefault('flags', []).append('digit chunks are ordered by their length in `%s` (leading zeros: "01" vs "1", "007" vs "8")' % norm(t))
+            return [(True, facts), (False, facts)]
+        if all(isinstance(v, Sym) and ((v.kind == 'chunk' and v.digit) or (v.kind == 'strconst' and v.v.isdigit())) for v in (l, r)) \
+                and any(v.kind == 'chunk' for v in (l, r)) and isinstance(t.ops[0], (ast.Eq, ast.NotEq)):
+            self.cfg.setdefault('flags', []).append('digit chunks are compared by their spelling in `%s` ("1.01" and "1.1" are equal versions)' % norm(t))
             return [(True, facts), (False, facts)]
         return NotImplemented
 
